@@ -87,10 +87,14 @@ def _build_subject(spec):
         return corpus.resolve(spec[1]).parse_immutable(raw)[0]
     if kind == 'client_hello':
         from cryptodatahub.tls.algorithm import TlsCipherSuite
-        from cryptoparser.tls.subprotocol import TlsHandshakeClientHello
+        from cryptoparser.tls.subprotocol import (
+            TlsHandshakeClientHello, TlsHandshakeHelloRandom, TlsHandshakeHelloRandomBytes)
         suites = list(TlsCipherSuite)
         chosen = [suites[i % len(suites)] for i in range(spec[1])]
-        return TlsHandshakeClientHello(cipher_suites=chosen, fallback_scsv=bool(spec[2]),
+        # explicit clock / random values: defaults would read the wall clock and the global PRNG
+        hello_random = TlsHandshakeHelloRandom(datetime.datetime(2024, 1, 15, 12, 0, 0),
+                                               TlsHandshakeHelloRandomBytes(bytearray(range(28))))
+        return TlsHandshakeClientHello(cipher_suites=chosen, random=hello_random, fallback_scsv=bool(spec[2]),
                                        empty_renegotiation_info_scsv=bool(spec[3]))
     if kind == 'factory':
         import random as _random
@@ -372,7 +376,8 @@ def _exec_observe(doc, res):
             res.stats['fault.observer_call_failed'] += 1
         seen.append((call, 'raised:' + outcome[1] if failed else 'ok'))
         # repr()/str() of dependency objects may contain addresses: keep their values out of the log
-        res.event(name, call, outcome[0], outcome[1] if failed else (None if call in ('str', 'repr') else hash_of(outcome[1])))
+        res.event(name, call, outcome[0], outcome[1] if failed else (
+            None if call in ('str', 'repr') or spec[0] == 'default' else hash_of(outcome[1])))
         after = canon(obj)
         if after != snapshot:
             res.violation((PROPERTY, 'observer-changed-object', name, call, 'failed' if failed else 'ok'),
